@@ -168,6 +168,20 @@ def opposite(a, b):
     return isinstance(a, str) and isinstance(b, str) and a != b
 
 
+# external functions: (index of the coordinate-pair argument, its order)
+COORD_ARGS = {
+    'map_coordinates': (1, 'YX'),       # scipy.ndimage: coordinates in array-index order
+    'overlap_slices': (2, 'YX'),        # astropy.nddata.utils: position in (y, x)
+    'extract_array': (2, 'YX'),
+    'add_array': (2, 'YX'),
+    'Cutout2D': (1, 'XY'),              # astropy Cutout2D position is (x, y)
+    'unravel_index': (99, 'YX'),
+}
+# callables / indexers whose 2-tuple result has a fixed order
+PAIR_RETURNS = {
+    'mgrid': 'YX', 'ogrid': 'YX', 'indices': 'YX', 'unravel_index': 'YX', 'nonzero': 'YX', 'where': 'YX',
+    'meshgrid': 'XY',
+}
 IMAGE_NAME = re.compile(r'(data|image|img|array|mask|error|weights?|cutout|segm|frac|footprint|kernel|bkg|background|'
                         r'result|out|model_image|variance)')
 
@@ -192,6 +206,34 @@ def axis_conflicts(func_node):
                         checked += 1
                         if kt != vt:
                             out.append((k.value, f'keyword `{k.arg}` is ({kt[1]},{kt[2]})-ordered but receives `{unparse(k.value, 60)}` ordered ({vt[1]},{vt[2]})'))
+        # external APIs with a fixed coordinate order (model rows)
+        if isinstance(n, ast.Call):
+            fn = unparse(n.func, 0).split('.')[-1]
+            spec_ = COORD_ARGS.get(fn)
+            if spec_:
+                pos, order = spec_
+                if pos < len(n.args):
+                    vt = tag(n.args[pos])
+                    if isinstance(vt, tuple):
+                        checked += 1
+                        want = ('P', Y, X) if order == 'YX' else ('P', X, Y)
+                        if vt != want:
+                            out.append((n, f'`{fn}` takes its coordinates in ({want[1].lower()}, {want[2].lower()}) order but receives '
+                                           f'`{unparse(n.args[pos], 50)}` ordered ({vt[1].lower()}, {vt[2].lower()})'))
+        # a, b = <call returning an ordered pair>
+        if isinstance(n, ast.Assign) and len(n.targets) == 1 and isinstance(n.targets[0], (ast.Tuple, ast.List)) \
+                and len(n.targets[0].elts) == 2:
+            v = n.value
+            base = v.value if isinstance(v, ast.Subscript) else v
+            fn = unparse(base.func, 0).split('.')[-1] if isinstance(base, ast.Call) else unparse(base, 0).split('.')[-1]
+            order = PAIR_RETURNS.get(fn)
+            if order:
+                ta, tb = tag(n.targets[0].elts[0]), tag(n.targets[0].elts[1])
+                if isinstance(ta, str) and isinstance(tb, str) and ta != tb:
+                    checked += 1
+                    want = (Y, X) if order == 'YX' else (X, Y)
+                    if (ta, tb) != want:
+                        out.append((n, f'`{fn}` yields ({want[0].lower()}, {want[1].lower()}) but is unpacked into `{unparse(n.targets[0], 40)}`'))
         # name = expr
         if isinstance(n, ast.Assign) and len(n.targets) == 1:
             t = n.targets[0]
